@@ -13,7 +13,10 @@ use std::sync::atomic::{AtomicBool, AtomicU64, Ordering};
 use std::sync::{Arc, Mutex};
 use std::time::{Duration, Instant};
 
-const VERIF_DIR: &str = "/verif";
+/// Where evidence and replays go: the directory of the check script (VERIF_HOME), /verif by default.
+fn verif_dir() -> String {
+    std::env::var("VERIF_HOME").unwrap_or_else(|_| "/verif".to_string())
+}
 /// A run normally takes milliseconds; one that needs this long of real time is reported as a crash-class violation.
 const CHILD_WALL_CAP_S: u64 = 40;
 /// Wall-clock budget of one minimisation.
@@ -85,7 +88,7 @@ fn run_plan_file(check: &str, path: &str) -> ChildOut {
 }
 
 fn run_plan(check: &str, plan: &Plan, tag: &str) -> ChildOut {
-    let dir = format!("{VERIF_DIR}/replays");
+    let dir = format!("{}/replays", verif_dir());
     let _ = std::fs::create_dir_all(&dir);
     let path = format!("{dir}/tmp-{}-{}.json", std::process::id(), tag);
     std::fs::write(&path, serde_json::to_string(plan).unwrap()).expect("write tmp plan");
@@ -120,7 +123,7 @@ pub struct KnownFinding {
 }
 
 fn load_known() -> Vec<KnownFinding> {
-    let path = format!("{VERIF_DIR}/known_findings.json");
+    let path = format!("{}/known_findings.json", verif_dir());
     match std::fs::read_to_string(&path) {
         Ok(t) => serde_json::from_str::<serde_json::Value>(&t)
             .ok()
@@ -476,7 +479,7 @@ pub fn batch_main(args: &[String]) -> i32 {
     let mut unknown = 0;
     let mut known_hit: Vec<String> = Vec::new();
     let mut violation_records = Vec::new();
-    let replays_dir = format!("{VERIF_DIR}/replays");
+    let replays_dir = format!("{}/replays", verif_dir());
     let _ = std::fs::create_dir_all(&replays_dir);
     for (v, seed, plan) in a.violations.iter() {
         let (min_plan, tried) = minimise(&check, plan, &v.rule, &v.key, jobs, 320);
@@ -554,7 +557,7 @@ pub fn batch_main(args: &[String]) -> i32 {
         "violations": unknown,
         "violating_runs": a.violating_runs,
     });
-    let ev_dir = format!("{VERIF_DIR}/evidence");
+    let ev_dir = format!("{}/evidence", verif_dir());
     let _ = std::fs::create_dir_all(&ev_dir);
     std::fs::write(format!("{ev_dir}/{check}.json"), serde_json::to_string_pretty(&evidence).unwrap()).expect("write evidence");
     println!(
